@@ -290,6 +290,49 @@ def run_eval(im, es, observe=None):
         else:
             host.probes[int(p[0])] = ('ret', rd.val(p[2]))
     host.classify = im.classify
+    # `(primed a|b)`: the parser retains its trees for this case (parse_cache = {}) and evaluates the SAME text once before,
+    # for another names mapping (a: an equal copy, b: every data value replaced by the number 2, c: without the entries that rebind builtin names), with its own host log and
+    # random stream.  The answer compared with the model is the SECOND evaluation's: whatever a node, a table at module level or
+    # the parser remembers about the first evaluation must not show (the model evaluates the text once, from nothing).
+    primed = field(es, 'primed')
+    if primed:
+        im.p.parse_cache = {}
+        try:
+            ph = Host({})
+            ph.classify = im.classify
+            pn = Reader(ns, ph).val(field(es, 'names')[0])
+            for q in probes_spec:
+                ph.probes[int(q[0])] = ('raise', make_exc(ns, q[2])) if q[1] == 'raise' else ('ret', Reader(ns, ph).val(q[2]))
+            if primed[0] == 'b' and isinstance(pn, dict):
+                for k in list(pn):
+                    if not callable(pn[k]):
+                        pn[k] = decimal.Decimal(2)
+            if primed[0] == 'c' and isinstance(pn, dict):
+                # the first evaluation sees the BUILTINS where the real mapping rebinds their names
+                for k in list(pn):
+                    if k in ns.functions.FUNCTIONS:
+                        del pn[k]
+            rr = getattr(ns.functions, 'random', None)
+            set_random(ns, FakeRandom(rng))
+            try:
+                kw0 = {} if budget is None or budget == 'default' else {'max_ops_evaluated': int(budget)}
+                im.p.eval(src, pn, **kw0)
+            except RecursionError:
+                pass
+            except Exception:
+                pass
+            finally:
+                set_random(ns, rr)
+        except Exception:
+            pass
+    try:
+        return _run_eval_body(im, es, ns, src, budget, rng, host, rd, names)
+    finally:
+        if primed:
+            im.p.parse_cache = None
+
+
+def _run_eval_body(im, es, ns, src, budget, rng, host, rd, names):
     # the implementation's own parse tree (eval parses expr.rstrip())
     try:
         t = im.p.parse(src.rstrip())
